@@ -162,6 +162,12 @@ pub fn hostile_texts() -> Vec<String> {
         // JSON documents (footers and assertions usually are): the same document can be spelled in many ways, a
         // token is bound to the text
         JSON_DOC, "{ \"kid\" : \"k1\", \"x\": \"\u{e9}\" }", "[1,2]", "{\"a\":1,\"a\":2}",
+        // JSON-pointer and path syntax (RFC 6901 escapes ~0 and ~1), as claim names and values
+        "a~1b", "~0", "rev~01", "~", "a/b", "/", "a~b",
+        // texts that look like the library's own vocabulary: PASERK key identifiers and wrapped keys (what footers
+        // typically carry), tokens and headers
+        "k4.secret.AAAA", "k1.secret. k2.secret. k3.secret.x", "k4.local.AAAA", "k4.public.AAAA", "k4.pid.AAAA", "k4.lid.AAAA", "k4.sid.AAAA", "k4.seal.AAAA", "k4.local-pw.AAAA",
+        "{\"kid\":\"k4.pid.AAAA\",\"wpk\":\"k4.secret-wrap.pie.AAAA\"}", "v4.local.AAAA.BBBB", "v4.public.", "v2.local.AAAA", "local", "public",
     ]
     .iter()
     .map(|s| s.to_string())
